@@ -61,6 +61,10 @@ type mode struct {
 	mouseSGR bool
 	// Alternate scroll
 	altScroll bool
+
+	// grapheme clustering (mode 2027). The emulator always places whole
+	// clusters, the mode is only tracked so that it can be reported
+	unicodeCore bool
 }
 
 func (vt *Model) sm(params [][]int) {
@@ -136,6 +140,8 @@ func (vt *Model) decset(params [][]int) {
 			vt.ed(2)
 		case 2004:
 			vt.mode.paste = true
+		case 2027:
+			vt.mode.unicodeCore = true
 		}
 	}
 }
@@ -182,6 +188,8 @@ func (vt *Model) decrst(params [][]int) {
 			vt.decrc()
 		case 2004:
 			vt.mode.paste = false
+		case 2027:
+			vt.mode.unicodeCore = false
 		}
 	}
 }
@@ -290,6 +298,13 @@ func (vt *Model) decrqm(pd int) {
 		}
 	case 2004:
 		switch vt.mode.paste {
+		case true:
+			ps = 1
+		case false:
+			ps = 2
+		}
+	case 2027:
+		switch vt.mode.unicodeCore {
 		case true:
 			ps = 1
 		case false:
